@@ -223,6 +223,41 @@ def run(report, tier, seed):
                 cargs = core.cseq(coq_arg(a) for a in pos)
                 ckw = core.cseq(f"({core.name_index(kk)}%N, ZNum [::] [:: {core.cz(a)}])" for kk, a in kw.items())
                 cc.add(f"chk_num (zcall_numeric {core.coq_parr(lay)} {cargs} {ckw}) (NErr TypeError)", rep)
+    # ---- narrow coefficient dtypes at large Python ints; tiny coefficients through staged evaluation ---------
+    from fractions import Fraction
+    extra = 60 if tier == "quick" else 600
+    for k in range(extra):
+        D = rng.randint(1, 2)
+        names = tuple(sorted(rng.sample([0, 1, 2], D)))
+        rows = sorted({r for r in (tuple(rng.choice([0, 1, 2, 3]) for _ in range(D)) for _ in range(rng.randint(2, 5))) if sum(r) <= 3}) or [(1,) * D]
+        if k % 2 == 0:
+            d = rng.choice(["int8", "int16", "int32", "float32"])
+            cols = [numpy.array(rng.choice([-3, -1, 1, 2, 5]), dtype=d) for _ in rows]
+            point = [rng.choice([70000, -70000, 2 ** 16 + 1, -3, 99991]) for _ in names]      # |value| stays far below 2**63
+            tag = f"narrow:{d}"
+        else:
+            cols = [numpy.array(rng.choice([2.0 ** -30, -2.0 ** -40, 3.0, 1.0, 2.0 ** -33])) for _ in rows]
+            point = [rng.choice([2, -3, 2 ** 16, 2 ** 15]) for _ in names]
+            tag = "tiny-coefficients"
+        p = numpoly.polynomial_from_attributes(rows, cols, tuple(f"q{v}" for v in names))
+        want = sum(Fraction(float(c)) * Fraction(numpy.prod([Fraction(x) ** e for x, e in zip(point, r)])) for r, c in zip(rows, cols))
+        rep = {"poly": gen.describe(p), "point": point, "stream": tag}
+        n += 1
+        try:
+            at_once = p(*point)
+            vals = {"python ints": at_once, "numpy.int64": p(*[numpy.int64(x) for x in point]), "floats": p(*[float(x) for x in point])}
+            if len(p.names) == 2:
+                for label, (i, j) in (("staged", (0, 1)), ("staged-reversed", (1, 0))):
+                    first = p(**{p.names[i]: point[i]})
+                    vals[label] = first(**{p.names[j]: point[j]}) if isinstance(first, numpoly.ndpoly) else first
+            for how, v in vals.items():
+                got = Fraction(float(numpy.asarray(v).item())) if numpy.asarray(v).dtype.kind == "f" else Fraction(int(numpy.asarray(v).item()))
+                tol = abs(want) * Fraction(1, 10 ** 9) if numpy.asarray(v).dtype.kind == "f" else 0
+                if abs(got - want) > tol:
+                    add(f"value:{tag.split(':')[0]}", f"{gen.describe(p)} evaluated at {point} with {how}: {float(got)!r}, the exact value is {float(want)!r}", rep)
+                    break
+        except Exception as exc:  # noqa: BLE001
+            add(f"raise:{tag.split(':')[0]}", f"{gen.describe(p)} at {point} raised {type(exc).__name__}: {exc}", rep)
     failed, errors = cc.run()
     report.coverage.update({
         "evaluations": n, "distinct_nontrivial": len(nontrivial),
